@@ -373,7 +373,9 @@ def oracle_encode_items(payload):
             cnt['ok'] += 1
             b = r[1]
             back = py_decode(name, b)
-            if back != ('ok', t):
+            # decode(encode(t)) == t is more than the property asks (it states encode(decode(b)) == b); it is still checked, except for the
+            # Unicode tag characters U+E0000..U+E007F, which glibc's iconv silently drops when converting from UCS (same exclusion as below)
+            if back != ('ok', t) and not any(0xE0000 <= ord(ch) <= 0xE007F for ch in t):
                 fails.append(('roundtrip-text', name, [ord(x) for x in t], 'encode -> %r, decode back differs' % (list(b),)))
             oks.append((t, b))
     def batch_ok(part):
